@@ -178,6 +178,27 @@ impl Api {
             }
         }
     }
+    /// another thread keeps lookup guards on ALL the given keys alive for `ms` milliseconds; returns (handle, guards held)
+    fn hold_refs(&self, ks: Vec<u64>, ms: u64) -> (std::thread::JoinHandle<()>, usize) {
+        let (tx, rx) = mpsc::channel::<usize>();
+        let c = self.0.clone();
+        let h = std::thread::spawn(move || match c {
+            AnyCache::Sync(c) => {
+                let rs: Vec<_> = ks.iter().filter_map(|k| c.get(k)).collect();
+                let _ = tx.send(rs.len());
+                std::thread::sleep(Duration::from_millis(ms));
+                drop(rs);
+            }
+            AnyCache::Async(c) => {
+                let rs: Vec<_> = ks.iter().filter_map(|k| bo(c.get(k))).collect();
+                let _ = tx.send(rs.len());
+                std::thread::sleep(Duration::from_millis(ms));
+                drop(rs);
+            }
+        });
+        let n = rx.recv_timeout(Duration::from_secs(5)).unwrap_or(0);
+        (h, n)
+    }
     fn clear(&self) -> bool {
         match &self.0 {
             AnyCache::Sync(c) => c.clear().is_ok(),
@@ -235,16 +256,17 @@ fn instance(tx: mpsc::Sender<Value>, seed: u64, flavor: String, exec: String, ti
             // sometimes another thread keeps a lookup guard on a resident key meanwhile: an eviction (or a sweep) that needs
             // that key's shard has to wait for the guard, not skip the removal
             let mut holder = None;
-            if !tiny && rng.gen_bool(0.3) {
+            if !tiny && rng.gen_bool(0.5) {
                 let p = post(&api.0);
-                if let Some(e) = p["store"].as_array().unwrap().first() {
-                    let idx = e["i"].as_u64().unwrap();
-                    if let Some(hk) = crate::cache::KEYTAB.iter().position(|kt| kt.0 == idx) {
-                        holder = api.hold_ref(hk as u64, 30);
-                        if holder.is_some() {
-                            lookups += 1;
-                        }
-                    }
+                // every resident key: whichever the policy picks as victim, its shard is pinned (the lookups are counted: all of
+                // the keys asked for, hit or miss)
+                let ks: Vec<u64> = p["store"].as_array().unwrap().iter()
+                    .filter_map(|e| crate::cache::KEYTAB.iter().position(|kt| kt.0 == e["i"].as_u64().unwrap()).map(|x| x as u64))
+                    .collect();
+                if !ks.is_empty() {
+                    lookups += ks.len() as u64;
+                    let (h, _n) = api.hold_refs(ks, 30);
+                    holder = Some(h);
                 }
             }
             let v = next_val;
@@ -253,8 +275,8 @@ fn instance(tx: mpsc::Sender<Value>, seed: u64, flavor: String, exec: String, ti
                 accepted.push(v);
             }
             if holder.is_some() {
-                // more newcomers while the guard is held: victims are chosen among the residents
-                for _ in 0..3 {
+                // more newcomers while the guards are held: victims are chosen among the residents
+                for _ in 0..6 {
                     let v = next_val;
                     next_val += 1;
                     if api.insert(keys[rng.gen_range(0..keys.len())], v, rng.gen_range(2..4), 0) {
